@@ -217,3 +217,10 @@ def r10(rr, repo):
 def r11(rr, repo):
     from .c01 import r14 as c01r14
     c01r14(rr, repo)
+
+
+@rule('C06.R12', "a source that died cannot freeze its consumer: requests are pushed without waiting on every call, so recv() keeps returning (and polling the other sources, the outputs and the stop event) while a source "
+                 "stays away (shares C05.R8)")
+def r12(rr, repo):
+    from .c05 import r8 as c05r8
+    c05r8(rr, repo)
